@@ -100,10 +100,14 @@ func (i *imports) Imports() []Import {
 }
 
 func (i *imports) decorateImport(imp string) string {
-	for shortcut, path := range i.prefixes {
-		if strings.Index(imp, shortcut) == 0 {
-			return strings.Replace(imp, shortcut, path, 1)
+	// an alias matches whole path segments only, so at most one alias can match the first segment,
+	// and the result does not depend on the order of iteration over the map
+	first, rest, found := strings.Cut(imp, "/")
+	if path, ok := i.prefixes[first]; ok {
+		if !found {
+			return path
 		}
+		return path + "/" + rest
 	}
 
 	return imp
